@@ -20,6 +20,7 @@ func init() {
 			Assumptions: []string{"encoding/json escapes metacharacters", "mapstructure stores the configured values into the tagged fields", "crypto/rand.Reader is a CSPRNG"},
 			Trusted:     []string{"go/packages", "go/types", "go/ssa", "crypto/*"},
 			RuleDoc: map[string]string{
+				"R9.state":      "no memory of earlier calls: on the call tree only frozen package-level variables are touched (known exceptions listed with reasons), and no package-level object is handed out",
 				"R1.csr":        "source of every field of the signing request",
 				"R2.keyid":      "source of every field of the KeyID",
 				"R3.freshkey":   "fresh key pair per request from crypto/rand",
@@ -33,6 +34,7 @@ func init() {
 }
 
 func runC02(c *Ctx) {
+	stateRule(c, "R9.state", []*ssa.Function{c.w.Method("gensign/regular", "Handler", "Generate"), c.w.Func("gensign/regular", "NewHandler"), c.w.Func("crypki", "GetDefaultExtension")}, knownState)
 	w := c.w
 	tablesC02(c)
 	m := resolveGensign(w)
